@@ -168,10 +168,17 @@ Proof.
   destruct (run (e_set e) v s) as [s' [u|err]]; [discriminate|]. apply negb_true_iff in H. eauto.
 Qed.
 
+Lemma breaking_witness_sound e s v : breaking_witness e = Some (s, v) ->
+  exists s' err x, run (e_set e) v s = (s', Err err) /\ eval (e_get e) s = Ok x /\ (exists er, eval (e_get e) s' = Err er).
+Proof.
+  unfold breaking_witness. intros H. apply find_some in H as [_ H]. unfold breaks_getter_on in H. cbn [fst snd] in H.
+  destruct (run (e_set e) v s) as [s' [u|err]]; [discriminate|]. apply andb_true_iff in H as [H1 H2].
+  destruct (eval (e_get e) s) as [x|]; [|discriminate H1]. destruct (eval (e_get e) s') as [y|er]; [discriminate H2|].
+  exists s', err, x. split; [reflexivity|]. split; [reflexivity|]. eauto.
+Qed.
+
 (** recorded findings are real: every recorded Class.name has a model witness *)
-Definition nonatomic_cns : list str :=
-  map entry_cn (filter (fun e => match nonatomic_witness e with Some _ => true | None => false end) catalogue).
-Lemma known_are_real : forallb (fun l => mem_str l nonatomic_cns) known_nonatomic = true.
+Lemma known_are_real : forallb (fun l => mem_str l breaking_cns) known_breaking = true.
 Proof. vm_compute. reflexivity. Qed.
 
 (** * the faithful model refutes parts of the statement: witnesses *)
@@ -195,12 +202,18 @@ Lemma major_unit_reject_refuted :
   /\ eval (e_get e) [] = Ok PNone.
 Proof. vm_compute. auto. Qed.
 
-(** Font.name: a:latin is added before the typeface is validated; afterwards the getter fails *)
-Lemma font_name_reject_refuted :
+(** Font.name: the typeface is assigned before a:latin is inserted: a refused value changes nothing *)
+Lemma font_name_reject_unchanged :
   let e := entry_named "Font.name" in
+  eval (e_get e) [] = Ok PNone /\ run (e_set e) (plain (PInt 5)) [] = ([], Err TypeErr).
+Proof. vm_compute. auto. Qed.
+
+(** Marker.size: c:size is added before its val is validated; afterwards the getter fails *)
+Lemma marker_size_reject_refuted :
+  let e := entry_named "Marker.size" in
   eval (e_get e) [] = Ok PNone
-  /\ snd (run (e_set e) (plain (PInt 5)) []) = Err TypeErr
-  /\ eval (e_get e) (fst (run (e_set e) (plain (PInt 5)) [])) = Err OtherErr.
+  /\ snd (run (e_set e) (plain (PInt 1)) []) = Err ValueErr
+  /\ eval (e_get e) (fst (run (e_set e) (plain (PInt 1)) [])) = Err OtherErr.
 Proof. vm_compute. auto. Qed.
 
 (** placeholder: assigning left creates a:off with y = 0, so top no longer reads the inherited value *)
@@ -217,14 +230,11 @@ Lemma placeholder_frame_refuted :
   /\ e_indep l t = false.
 Proof. vm_compute. auto. Qed.
 
-(** ColorFormat.theme_color: the srgbClr is replaced by an empty schemeClr before the member is validated *)
+(** ColorFormat.theme_color: the member is validated before the colour is changed *)
 Definition w_rgb : st := [ ((pth "a:srgbClr", None), []); ((pth "a:srgbClr", Some (s2l "val")), s2l "123456") ]%lit.
-Lemma theme_color_reject_refuted :
+Lemma theme_color_reject_unchanged :
   let e := entry_named "ColorFormat.theme_color" in
-  let r := entry_named "ColorFormat.rgb" in
-  eval (e_get r) w_rgb = Ok (PStr (s2l "123456"))
-  /\ snd (run (e_set e) (plain (PInt 987654)) w_rgb) = Err ValueErr
-  /\ eval (e_get r) (fst (run (e_set e) (plain (PInt 987654)) w_rgb)) = Err OtherErr.
+  run (e_set e) (plain (PInt 987654)) w_rgb = (w_rgb, Err ValueErr).
 Proof. vm_compute. auto. Qed.
 
 (** non-vacuity: concrete accepted assignments and independent pairs *)
